@@ -51,8 +51,8 @@ def tupleCell (fx : Bool) : Nat → Bytes → Step Unit
       else tupleCell fx k (p.drop size.toNat)
 
 def width : TI → Nat
-  | .tuple n => n
-  | .other => 1
+  | .tuple es => es.length
+  | _ => 1
 
 /-- the column loop of one Iter.Scan call: `i` = position in dest, `n` = len(dest) -/
 def scanCols (fx : Bool) (n : Nat) : List TI → Nat → Bytes → Step Bytes
@@ -72,14 +72,14 @@ def scanCols (fx : Bool) (n : Nat) : List TI → Nat → Bytes → Step Bytes
         else if n ≤ i then (if fx then .err else .crash .destIndex)
         else
           match col with
-          | .tuple k =>
-            if n < i + k then .crash .destSlice
+          | .tuple es =>
+            if n < i + es.length then .crash .destSlice
             else
-              match tupleCell fx k (cell.getD []) with
-              | .ok _ => scanCols fx n rest (i + k) b2
+              match tupleCell fx es.length (cell.getD []) with
+              | .ok _ => scanCols fx n rest (i + es.length) b2
               | .err => .err
               | .crash s => .crash s
-          | .other => scanCols fx n rest (i + 1) b2
+          | _ => scanCols fx n rest (i + 1) b2
 
 inductive ROut
   | ok (rows : Nat)
@@ -119,11 +119,122 @@ def scanAll (fx : Bool) (m : Meta) (numRows : Nat) (rest : Bytes) : ROut :=
   if destLen m > destCap then (if numRows = 0 then .ok 0 else .err 0)
   else scanLoop fx m.cols (destLen m) numRows 0 rest
 
+/-! ### Iter.RowData (the destinations of MapScan / SliceMap): helpers.go goType
+
+`TypeInfo.NewWithError` → `goType` builds a reflect.Type per column; for a map it calls
+`reflect.MapOf(keyType, valueType)`, which PANICS when the key's Go type is not comparable: blob
+([]byte), list / set (slices), map, tuple ([]interface{}), UDT (map[string]interface{}). CQL allows
+frozen collections, tuples and UDTs as map keys, so `map<frozen<list<int>>, int>` is a legal column
+type on which MapScan / SliceMap / RowData panic in the application goroutine (KF-C05-14). -/
+
+inductive GT
+  | ok (comparable : Bool)
+  | err            -- "cannot create Go type for unknown CQL type"
+  | crashMapOf     -- reflect.MapOf: invalid key type
+  | crashAssert    -- `t.(CollectionType)` / `t.(TupleTypeInfo)` on a NativeType: not reachable from a parsed frame
+deriving DecidableEq, Repr
+
+def GT.isCrash : GT → Bool
+  | .crashMapOf | .crashAssert => true
+  | _ => false
+
+/-- helpers.go goType on a parsed type tree -/
+def goType : TI → GT
+  | .simple t =>
+    if t == 0x03 then .ok false                                   -- blob: []byte
+    else if t == 0x20 || t == 0x21 || t == 0x22 || t == 0x31 then .crashAssert
+    else if t == 0x30 then .ok false
+    else if t == 0x01 || t == 0x02 || t == 0x04 || t == 0x05 || t == 0x06 || t == 0x07 || t == 0x08 || t == 0x09 ||
+            t == 0x0A || t == 0x0B || t == 0x0C || t == 0x0D || t == 0x0E || t == 0x0F || t == 0x10 || t == 0x11 ||
+            t == 0x12 || t == 0x13 || t == 0x14 || t == 0x15 then .ok true
+    else .err
+  | .list e =>
+    match goType e with
+    | .ok _ => .ok false
+    | o => o
+  | .map k v =>
+    match goType k with
+    | .ok ck =>
+      (match goType v with
+       | .ok _ => if ck then .ok false else .crashMapOf
+       | o => o)
+    | o => o
+  | .tuple _ => .ok false
+  | .udt _ => .ok false
+
+inductive RD
+  | ok (n : Nat)
+  | err
+  | crashMapOf
+  | crashAssert
+deriving DecidableEq, Repr
+
+def RD.isCrash : RD → Bool
+  | .crashMapOf | .crashAssert => true
+  | _ => false
+
+def goTypes : List TI → Nat → RD
+  | [], n => .ok n
+  | t :: r, n =>
+    match goType t with
+    | .ok _ => goTypes r (n + 1)
+    | .err => .err
+    | .crashMapOf => .crashMapOf
+    | .crashAssert => .crashAssert
+
+/-- Iter.RowData: one value per column, one per element for tuple columns -/
+def rowData : List TI → Nat → RD
+  | [], n => .ok n
+  | .tuple es :: r, n =>
+    (match goTypes es n with
+     | .ok m => rowData r m
+     | o => o)
+  | t :: r, n =>
+    match goType t with
+    | .ok _ => rowData r (n + 1)
+    | .err => .err
+    | .crashMapOf => .crashMapOf
+    | .crashAssert => .crashAssert
+
+/-- `fx = true`: with props/C05.fix-10.diff goType returns an error instead of calling reflect.MapOf
+with a key type that is not comparable -/
+def rowDataFx (fx : Bool) (cols : List TI) (n : Nat) : RD :=
+  match rowData cols n with
+  | .crashMapOf => if fx then .err else .crashMapOf
+  | o => o
+
+/-- the decidable shape that makes goType panic: a map whose key type is not comparable in Go
+(searched where goType looks: through list / set elements and map keys / values, not into tuple or
+UDT members) -/
+def badMapKey : TI → Bool
+  | .simple _ => false
+  | .list e => badMapKey e
+  | .map k v => badMapKey k || badMapKey v ||
+      (match k with
+       | .simple t => t == 0x03 || t == 0x30
+       | _ => true)
+  | .tuple _ => false
+  | .udt _ => false
+
+/-- NativeType carrying a collection / tuple id: readTypeInfo never builds one -/
+def nativeCollection : TI → Bool
+  | .simple t => t == 0x20 || t == 0x21 || t == 0x22 || t == 0x31
+  | .list e => nativeCollection e
+  | .map k v => nativeCollection k || nativeCollection v
+  | .tuple _ => false
+  | .udt _ => false
+
 /-- parse a RESULT frame body and, when it is a ROWS result, iterate it as conn.executeQuery +
 `for iter.Scan(dest...) {}` do; `none` when the frame is not a ROWS result (or does not parse) -/
 def iterate (fx : Bool) (proto flags : Nat) (body : Bytes) : Option ROut :=
   match parseFrame fx proto true flags 8 body with
   | .ok (.rows m n) st => some (scanAll fx m n st.buf)
+  | _ => none
+
+/-- parse a RESULT frame body and, when it is a ROWS result, build MapScan's destinations -/
+def newRow (fx : Bool) (proto flags : Nat) (body : Bytes) : Option RD :=
+  match parseFrame fx proto true flags 8 body with
+  | .ok (.rows m _) _ => some (rowDataFx fx m.cols 0)
   | _ => none
 
 end RowsCrash
